@@ -327,6 +327,27 @@ fn native_spec() {
                 _ => {}
             }
         }
+    } else if target == "value_sources" {
+        // C06/C03: a value that came from a (conditional) default is reported as a default and never
+        // satisfies a requirement
+        let cmd = || {
+            Command::new("p")
+                .arg(Arg::new("mode").long("mode").action(ArgAction::Set))
+                .arg(Arg::new("threads").long("threads").action(ArgAction::Set).default_value_if("mode", "fast", "8"))
+                .arg(Arg::new("plain").long("plain").action(ArgAction::Set).default_value("d"))
+                .arg(Arg::new("config").long("config").action(ArgAction::Set).required_unless_present("threads"))
+        };
+        match cmd().try_get_matches_from(["p", "--mode", "fast", "--config", "c"]) {
+            Ok(m) => {
+                if m.value_source("threads") != Some(crate::parser::ValueSource::DefaultValue) || m.value_source("plain") != Some(crate::parser::ValueSource::DefaultValue) {
+                    println!("SPEC-REPLAY MISMATCH target=value_sources case=default_value_if fired: sources threads={:?} plain={:?}, expected DefaultValue", m.value_source("threads"), m.value_source("plain"));
+                }
+            }
+            Err(e) => println!("SPEC-REPLAY MISMATCH target=value_sources case=valid line rejected: {:?}", e.kind()),
+        }
+        if cmd().try_get_matches_from(["p", "--mode", "fast"]).is_ok() {
+            println!("SPEC-REPLAY MISMATCH target=value_sources case=--mode fast without --config: accepted, a conditional default satisfied required_unless_present");
+        }
     } else if target == "phase_order" {
         // C06: command line > environment > default, also on the error-ignoring recovery path
         #[cfg(feature = "env")]
